@@ -95,11 +95,14 @@ Definition spec_compatible (uts : list unit_type) (nm : bool) (srcs bases : list
   | [] => false
   | p0 :: r =>
       forallb (fun p => nodupb (type_names p)) ps
-      && forallb (fun a => forallb (tables_eqb a) ps) ps
+      (* an id means the same function / location in every profile: each profile agrees with the
+         union of the tables (first occurrence of every id) *)
+      && (let u := set_tables p0 (union_by l_id [] (flat_map p_location ps)) (union_by f_id [] (flat_map p_function ps)) in
+          forallb (fun a => tables_eqb a u) ps)
       && negb (match common_types ps with [] => true | _ => false end)
       (* every sample type that two profiles share has the same or convertible units *)
       && forallb (fun t => units_convertible uts (map (fun p => unit_of p t) (filter (fun p => has_name t (type_names p)) ps)))
-                 (flat_map type_names ps)
+                 (nodup_str (flat_map type_names ps))
       && forallb (fun p => ovt_same (p_periodtype p0) (p_periodtype p)) r
       && units_convertible uts (map period_unit ps)
       && (negb nm || forallb (types_identical p0) r)
@@ -110,7 +113,7 @@ Definition Qmin_list (l : list Q) (d : Q) : Q :=
 
 Definition is_integer (q : Q) : bool := Qeq_bool q (inject_Z (Qfloor q)).
 
-Definition sumQ (l : list Q) : Q := fold_right Qplus 0%Q l.
+Definition sumQ (l : list Q) : Q := fold_right (fun a acc => Qred (a + acc)) 0%Q l.
 
 (* observable of a successful run *)
 Record observed := {
